@@ -5,6 +5,10 @@ import json, sys
 ALL = ["C%02d" % i for i in range(1, 21)]
 
 CHECKS = {
+ "C20": dict(level="model_checking", design="§3 C20, §0.1 E2",
+   technique="stateless model checking with a cooperative scheduler over statement-level points of the instrumented library (all schedules within a preemption bound for every pair/triple of independent operations), plus an exhaustive frozen-globals invariant probed at every statement, plus a separate free-running race-detector pass",
+   text="Stage A: every operation alone with the canonical hash of all package-level state compared at every statement and after every ordered pair. Stage B: every unordered pair of the operation alphabet in both orders (and 5 triples) under every schedule with <=1 preemption at statement granularity (<=2 for same-format pairs, thorough); every call's result must equal its solo result. Stage C: the same bodies free-running under -race.",
+   note="Trusted: Go toolchain/stdlib/race detector; dependencies run atomically between points; opaque leaves in the globals hash (regexp, Replacer, sync, funcs). Stage C is sampling by nature and is additional to A and B."),
  "C08": dict(level="exploration", design="§3 C08, §0.2 I-points",
    technique="exhaustive enumeration of three input families (all token words up to a length, full single-mutation balls around every corpus document, structured binary variations) and of a nil-lattice of the public types, executed on the real readers/writers in the instrumented build under recover() and a deterministic statement-level step budget (no wall-clock oracle)",
    text="Every member of each enumerated family is fed to the reader of its format (also across formats and through the opener); every lattice point within the deviation bound is written by all five writers. A panic or exceeding 50000+400*len steps in package astisub is a violation; the linear bound is additionally exercised on inputs of 2^k cues. Complete enumeration of the stated families; 'every byte sequence' beyond them is not claimed.",
